@@ -1,15 +1,16 @@
-(* Lemmas about the generated conditional constructors (gen/MatGen.v) under the
-   MathComp instance: noise assembly, normal equations of the three formulations,
-   read-out / batch independence, linearity in the values. *)
-From mathcomp Require Import all_ssreflect all_algebra.
-From MellonV Require Import MatOps MxInst MxPsd MatGen.
+(* C04 / C02 (matrix part) / C09: the four factorisations of the kernel matrix
+   (generated full_rank, standard_low_rank_*, full_decomposition_low_rank,
+   modified_low_rank): L L^T identities, Loewner bound (K + jI) - L L^T >= 0,
+   in-sample exactness of the Cholesky-latent predictor, sparse-vs-full identity. *)
+From mathcomp Require Import all_ssreflect all_fingroup all_algebra.
+From MellonV Require Import MatOps MxInst MxPsd MatGen CondThm.
 Set Implicit Arguments.
 Unset Strict Implicit.
 Unset Printing Implicit Defensive.
 Import Order.TTheory GRing.Theory Num.Theory.
 Local Open Scope ring_scope.
 
-Section Cond.
+Section Factor.
 Variable F : rcfType.
 Variable cholF : forall n : nat, 'M[F]_n -> 'M[F]_n.
 Variable eigS : forall n p : nat, 'M[F]_n -> 'cV[F]_p.
@@ -21,249 +22,112 @@ Hypothesis chol_ok : chol_contract cholF.
 Let ops := MxOps cholF eigS eigV qrQ qrR.
 Local Existing Instance ops.
 
-(* ---------------------------------------------------------------- noise *)
-Lemma stabilizeE n (A : 'M[F]_n) j : stabilize A j = A + j%:M.
-Proof. by rewrite /stabilize /= scalemx1. Qed.
+(* what _eigendecomposition is assumed to return when it keeps p pairs of a
+   symmetric psd matrix W (eigh contract + the slicing proved in C10): the kept
+   pairs (s, V) together with the discarded ones (sd, Vd) form an orthogonal
+   eigen-decomposition of W; kept eigenvalues are positive, discarded ones >= 0 *)
+Definition eig_top_of n p (W : 'M[F]_n) (s : 'cV[F]_p) (V : 'M[F]_(n, p)) :=
+  exists q, exists sd : 'cV[F]_q, exists Vd : 'M[F]_(n, q),
+    [/\ W = Vd *m diagv sd *m Vd^T + V *m diagv s *m V^T,
+        (forall i, 0 <= sd i 0), (forall i, 0 < s i 0),
+        V^T *m V = 1%:M & Vd^T *m V = 0].
+Definition eig_contract := forall n p (W : 'M[F]_n), sym W -> psd W -> eig_top_of W (eigS p W) (eigV p W).
 
-Lemma add_variance_none n (K : 'M[F]_n) j : add_variance_MN K j = K + j%:M.
-Proof. by rewrite /add_variance_MN stabilizeE. Qed.
+(* reduced QR *)
+Definition qr_contract := forall n m k (C : 'M[F]_(n, m)),
+  qrQ k C *m qrR k C = C /\ (qrQ k C)^T *m qrQ k C = 1%:M.
 
-(* the noise term assembled by add_variance from a factor M: M M^T with every
-   diagonal entry raised to at least the jitter *)
-Definition noise_of n k (Mf : 'M[F]_(n, k)) (j : F) : 'M[F]_n :=
-  Mf *m Mf^T + diagv (\col_i (if (Mf *m Mf^T) i i < j then j - (Mf *m Mf^T) i i else 0)).
-
-Lemma add_variance_factor n k (K : 'M[F]_n) (Mf : 'M[F]_(n, k)) j :
-  add_variance_MM K Mf j = K + noise_of Mf j.
+(* ---- small algebra ---- *)
+Lemma bcol_mulE n p (A : 'M[F]_(n, p)) (d : 'cV[F]_p) :
+  (\matrix_(i, l) (A i l * d l 0)) = A *m diagv d.
 Proof.
-rewrite /add_variance_MM /noise_of /= -addrA; congr (_ + (_ + diagv _)).
-by apply/matrixP => i c; rewrite !mxE.
+apply/matrixP => i l; rewrite !mxE (bigD1 l) //= big1 ?addr0; last first.
+  by move=> t tl; rewrite !mxE (negbTE tl) mulr0.
+by rewrite !mxE eqxx.
 Qed.
 
-Lemma noise_of_diag n k (Mf : 'M[F]_(n, k)) j i :
-  (noise_of Mf j) i i = Num.max ((Mf *m Mf^T) i i) j.
+Lemma bcol_divE n p (A : 'M[F]_(n, p)) (d : 'cV[F]_p) :
+  (\matrix_(i, l) (A i l / d l 0)) = A *m diagv (\col_i (d i 0)^-1).
+Proof. by rewrite -bcol_mulE; apply/matrixP => i l; rewrite !mxE. Qed.
+
+Lemma diagv_sqrt_sq p (s : 'cV[F]_p) : (forall i, 0 <= s i 0) ->
+  diagv (map_mx Num.sqrt s) *m (diagv (map_mx Num.sqrt s))^T = diagv s.
 Proof.
-rewrite /noise_of; move: (Mf *m Mf^T) => N; rewrite mxE [X in _ + X]mxE eqxx mxE.
-case: (ltP (N i i) j) => h; last by rewrite addr0.
-by rewrite addrC subrK.
+move=> s0; rewrite diagv_tr diagv_mul; congr diagv; apply/matrixP => i l.
+by rewrite !mxE ord1 -expr2 sqr_sqrtr.
 Qed.
 
-Lemma noise_of_offdiag n k (Mf : 'M[F]_(n, k)) j i l :
-  i != l -> (noise_of Mf j) i l = (Mf *m Mf^T) i l.
-Proof.
-by move=> il; rewrite /noise_of; move: (Mf *m Mf^T) => N; rewrite mxE [X in _ + X]mxE (negbTE il) addr0.
-Qed.
+Lemma scaled_gram n p (V : 'M[F]_(n, p)) (s : 'cV[F]_p) : (forall i, 0 <= s i 0) ->
+  (V *m diagv (map_mx Num.sqrt s)) *m (V *m diagv (map_mx Num.sqrt s))^T = V *m diagv s *m V^T.
+Proof. by move=> s0; rewrite trmx_mul mulmxA -(mulmxA V) diagv_sqrt_sq. Qed.
 
-Lemma noise_of_scalar n s j :
-  noise_of (s *: (1%:M : 'M[F]_n)) j = (Num.max (s ^+ 2) j)%:M.
-Proof.
-apply/matrixP => i l; case: (eqVneq i l) => [->|il].
-  rewrite noise_of_diag -scalemxAl mul1mx linearZ /= trmx1 scalerA !mxE eqxx mulr1n.
-  by rewrite -expr2 mulr1.
-rewrite noise_of_offdiag // -scalemxAl mul1mx linearZ /= trmx1 scalerA !mxE (negbTE il).
-by rewrite mulr0n mulr0.
-Qed.
+Lemma max_sif (a b : F) : sif (a < b) b a = Num.max a b.
+Proof. by rewrite /sif /Num.max; case: ifP. Qed.
 
-Lemma diagv_mul n (d e : 'cV[F]_n) : diagv d *m diagv e = diagv (\col_i (d i 0 * e i 0)).
-Proof.
-apply/matrixP => i l; rewrite !mxE (bigD1 i) //= big1 ?addr0; last first.
-  by move=> t ti; rewrite !mxE eq_sym (negbTE ti) mul0r.
-by rewrite !mxE eqxx; case: eqP => _; rewrite ?mulr0.
-Qed.
-
-Lemma diagv_tr n (d : 'cV[F]_n) : (diagv d)^T = diagv d.
-Proof. exact: sym_diagv. Qed.
-
-Lemma noise_of_vector n (s : 'cV[F]_n) j :
-  noise_of (diagv s) j = diagv (\col_i Num.max (s i 0 ^+ 2) j).
-Proof.
-apply/matrixP => i l; case: (eqVneq i l) => [->|il].
-  by rewrite noise_of_diag diagv_tr diagv_mul !mxE eqxx expr2.
-by rewrite noise_of_offdiag // diagv_tr diagv_mul !mxE (negbTE il).
-Qed.
-
-Lemma diagv_const n (a : F) : diagv (const_mx a : 'cV[F]_n) = a%:M.
-Proof. by apply/matrixP => i l; rewrite !mxE; case: eqP. Qed.
-
-
-(* ------------------------------------------------- positive definiteness *)
-Lemma spd_jitter n (K : 'M[F]_n) j : sym K -> psd K -> 0 < j -> spd (K + j%:M).
-Proof. by move=> sK pK j0; split; [apply: symD => //; apply: sym_scalar|apply: pdDr => //; apply: pd_scalar]. Qed.
-
-Lemma spd_noise_diag n (K : 'M[F]_n) (d : 'cV[F]_n) :
-  sym K -> psd K -> (forall i, 0 < d i 0) -> spd (K + diagv d).
-Proof. by move=> sK pK d0; split; [apply: symD => //; apply: sym_diagv|apply: pdDr => //; apply: pd_diagv]. Qed.
-
-Lemma max_jitter_gt0 (a j : F) : 0 < j -> 0 < Num.max a j.
-Proof. by move=> j0; rewrite lt_maxr j0 orbT. Qed.
-
-(* ------------------------------------------------------ triangular solves *)
-Lemma solve_chain n c (L : 'M[F]_n) (r : 'M[F]_(n, c)) :
-  is_lower L -> solve_upper (mtr L) (solve_lower L r) = invmx L^T *m (invmx L *m r).
-Proof. by move=> lL; rewrite /= uppart_tr lowpart_id. Qed.
-
-Lemma solve_upper_tr n c (L : 'M[F]_n) (r : 'M[F]_(n, c)) :
-  is_lower L -> solve_upper (mtr L) r = invmx L^T *m r.
-Proof. by move=> lL; rewrite /= uppart_tr lowpart_id. Qed.
-
-Lemma solve_lowerE n c (L : 'M[F]_n) (r : 'M[F]_(n, c)) :
-  is_lower L -> solve_lower L r = invmx L *m r.
-Proof. by move=> lL; rewrite /= lowpart_id. Qed.
-
-Lemma chol_solve n c (L A : 'M[F]_n) (r : 'M[F]_(n, c)) :
-  chol_of L A -> A *m (invmx L^T *m (invmx L *m r)) = r.
-Proof.
-move=> cL; have uL := chol_of_unit cL; case: cL => lL _ <-.
-by rewrite -mulmxA (mulmxA L^T) mulmxV ?unitmx_tr // mul1mx mulmxA mulmxV // mul1mx.
-Qed.
-
-Lemma chol_inv n (L A : 'M[F]_n) : chol_of L A -> invmx L^T *m invmx L = invmx A.
-Proof.
-move=> cL; have uL := chol_of_unit cL; case: cL => lL _ <-.
-have uA : L *m L^T \in unitmx by rewrite unitmx_mul unitmx_tr uL.
-rewrite -[LHS]mulmx1 -(mulmxV uA) mulmxA -[RHS]mul1mx; congr (_ *m _).
-by rewrite -mulmxA (mulmxA (invmx L)) mulVmx // mul1mx mulVmx ?unitmx_tr // .
-Qed.
-
-(* ------------------------------------------------ full GP: normal equations *)
+(* ---- full: L L^T = K + max(sigma^2, j) I ---- *)
 Section Full.
-Variables (n c : nat) (K : 'M[F]_n) (y : 'M[F]_(n, c)) (mu j : F).
+Variables (n : nat) (K : 'M[F]_n) (s j : F).
 Hypothesis symK : sym K.
 Hypothesis psdK : psd K.
 Hypothesis j_gt0 : 0 < j.
 
-Let r := y - const_mx mu.
+Lemma full_rankE : full_rank K s j = cholF (K + (Num.max (s ^+ 2) j)%:M).
+Proof. by rewrite /full_rank stabilizeE /= max_sif -expr2. Qed.
 
-Lemma full_weights_ymean sigma :
-  FullCond_init_LN_sS_cN_yT_uF_weights K y mu sigma j = invmx (K + j%:M) *m r.
-Proof.
-rewrite /FullCond_init_LN_sS_cN_yT_uF_weights /get_L_cN add_variance_none.
-have cL := chol_ok (spd_jitter symK psdK j_gt0); case: (cL) => lL _ _.
-by rewrite (solve_chain _ lL) mulmxA (chol_inv cL).
-Qed.
+Lemma full_rank_chol : chol_of (full_rank K s j) (K + (Num.max (s ^+ 2) j)%:M).
+Proof. by rewrite full_rankE; apply: chol_ok; apply: spd_jitter => //; apply: max_jitter_gt0. Qed.
 
-Lemma full_normal_eq_ymean sigma :
-  (K + j%:M) *m FullCond_init_LN_sS_cN_yT_uF_weights K y mu sigma j = y - const_mx mu.
-Proof. by rewrite full_weights_ymean mulmxA mulmxV ?mul1mx // spd_unit //; apply: spd_jitter. Qed.
-
-Lemma full_weights_scalar sigma :
-  FullCond_init_LN_sS_cN_yF_uF_weights K y mu sigma j = invmx (K + (Num.max (sigma ^+ 2) j)%:M) *m r.
-Proof.
-rewrite /FullCond_init_LN_sS_cN_yF_uF_weights /get_L_cM /sigma_to_y_cov_factor_sS_cN add_variance_factor.
-rewrite [mscale _ _]/= noise_of_scalar.
-have cL := chol_ok (spd_jitter symK psdK (max_jitter_gt0 (sigma ^+ 2) j_gt0)); case: (cL) => lL _ _.
-by rewrite (solve_chain _ lL) mulmxA (chol_inv cL).
-Qed.
-
-Lemma full_normal_eq_scalar sigma :
-  (K + (Num.max (sigma ^+ 2) j)%:M) *m FullCond_init_LN_sS_cN_yF_uF_weights K y mu sigma j = y - const_mx mu.
-Proof.
-rewrite full_weights_scalar mulmxA mulmxV ?mul1mx // spd_unit //; apply: spd_jitter => //.
-exact: max_jitter_gt0.
-Qed.
-
-Lemma full_weights_vector (sigma : 'cV[F]_n) :
-  FullCond_init_LN_sV_cN_yF_uF_weights K y mu sigma j
-  = invmx (K + diagv (\col_i Num.max (sigma i 0 ^+ 2) j)) *m r.
-Proof.
-rewrite /FullCond_init_LN_sV_cN_yF_uF_weights /get_L_cM /sigma_to_y_cov_factor_sV_cN add_variance_factor.
-rewrite [mdiagv _]/= noise_of_vector.
-have sp : spd (K + diagv (\col_i Num.max (sigma i 0 ^+ 2) j)).
-  by apply: spd_noise_diag => // i; rewrite mxE max_jitter_gt0.
-have cL := chol_ok sp; case: (cL) => lL _ _.
-by rewrite (solve_chain _ lL) mulmxA (chol_inv cL).
-Qed.
-
-Lemma full_normal_eq_vector (sigma : 'cV[F]_n) :
-  (K + diagv (\col_i Num.max (sigma i 0 ^+ 2) j)) *m FullCond_init_LN_sV_cN_yF_uF_weights K y mu sigma j
-  = y - const_mx mu.
-Proof.
-rewrite full_weights_vector mulmxA mulmxV ?mul1mx // spd_unit //.
-by apply: spd_noise_diag => // i; rewrite mxE max_jitter_gt0.
-Qed.
-
-(* a general noise factor (e.g. L diag(std) from the latent posterior); here positive
-   definiteness of the regularised matrix is a hypothesis *)
-Lemma full_weights_factor k sigma (Yf : 'M[F]_(n, k)) :
-  spd (K + noise_of Yf j) ->
-  FullCond_init_LN_sS_cM_yF_uF_weights K y mu sigma j Yf = invmx (K + noise_of Yf j) *m r.
-Proof.
-move=> sp.
-rewrite /FullCond_init_LN_sS_cM_yF_uF_weights /get_L_cM /sigma_to_y_cov_factor_sS_cM add_variance_factor.
-have cL := chol_ok sp; case: (cL) => lL _ _.
-by rewrite (solve_chain _ lL) mulmxA (chol_inv cL).
-Qed.
-
-Lemma full_normal_eq_factor k sigma (Yf : 'M[F]_(n, k)) :
-  spd (K + noise_of Yf j) ->
-  (K + noise_of Yf j) *m FullCond_init_LN_sS_cM_yF_uF_weights K y mu sigma j Yf = y - const_mx mu.
-Proof. by move=> sp; rewrite full_weights_factor // mulmxA mulmxV ?mul1mx // spd_unit. Qed.
-
-(* a supplied factor L (any lower-triangular matrix with non-zero diagonal) *)
-Lemma full_weights_given (L : 'M[F]_n) sigma :
-  is_lower L -> FullCond_init_LM_sS_cN_yF_uF_weights y mu L sigma j = invmx L^T *m (invmx L *m r).
-Proof. by move=> lL; rewrite /FullCond_init_LM_sS_cN_yF_uF_weights (solve_chain _ lL). Qed.
-
-Lemma full_normal_eq_given (L : 'M[F]_n) sigma :
-  is_lower L -> (forall i, L i i != 0) ->
-  (L *m L^T) *m FullCond_init_LM_sS_cN_yF_uF_weights y mu L sigma j = y - const_mx mu.
-Proof.
-move=> lL dL; rewrite full_weights_given //; have uL := lower_unit lL dL.
-by rewrite -mulmxA (mulmxA L^T) mulmxV ?unitmx_tr // mul1mx mulmxA mulmxV // mul1mx.
-Qed.
-
+Lemma full_LLt : full_rank K s j *m (full_rank K s j)^T = K + (Num.max (s ^+ 2) j)%:M.
+Proof. by case: full_rank_chol. Qed.
 End Full.
 
-(* ------------------------------- inducing points (DTC): normal equations *)
-Section Dtc.
-Variables (n m c : nat) (Kuf : 'M[F]_(m, n)) (Kuu : 'M[F]_m) (y : 'M[F]_(n, c)) (mu j : F).
+(* ---- inducing points: L = K_xu Lp^-T ---- *)
+Section Standard.
+Variables (n m : nat) (Kxu : 'M[F]_(n, m)) (Kuu : 'M[F]_m) (s j : F).
 Hypothesis symK : sym Kuu.
 Hypothesis psdK : psd Kuu.
 Hypothesis j_gt0 : 0 < j.
 
-Let r := y - const_mx mu.
-Let Lu := cholF (Kuu + j%:M).
-Let A := invmx Lu *m Kuf.
+Lemma standard_given (Lp : 'M[F]_m) s' j' :
+  is_lower Lp -> standard_low_rank_PM Kxu Lp s' j' = Kxu *m invmx Lp^T.
+Proof. by move=> lL; rewrite /standard_low_rank_PM /= lowpart_id // trmx_mul trmxK trmx_inv. Qed.
 
-Lemma Lu_chol : chol_of Lu (Kuu + j%:M).
-Proof. exact: chol_ok (spd_jitter symK psdK j_gt0). Qed.
-
-Lemma Lu_A : Lu *m A = Kuf.
-Proof. by rewrite /A mulmxA mulmxV ?mul1mx // (chol_of_unit Lu_chol). Qed.
-
-Lemma spd_AAt_noise a : 0 < a -> spd (A *m A^T + a%:M).
-Proof. by move=> a0; apply: spd_jitter => //; [apply: sym_gram|apply: psd_gram]. Qed.
-
-(* closed form of the generated weights, noise level a on the whitened inducing variables *)
-Definition dtc_w (a : F) := invmx Lu^T *m (invmx (A *m A^T + a%:M) *m (A *m r)).
-
-Lemma dtc_weights_ymean sigma :
-  LandmarksCond_init_sS_cN_yT_uF_weights Kuf Kuu y mu sigma j = dtc_w j.
+Lemma standard_recomputed :
+  let Lp := full_rank Kuu s j in
+  standard_low_rank_PN Kxu Kuu s j = Kxu *m invmx Lp^T.
 Proof.
-rewrite /LandmarksCond_init_sS_cN_yT_uF_weights /get_L_cN add_variance_none stabilizeE.
-case: (Lu_chol) => lL _ _; rewrite /= -/Lu lowpart_id // -/A.
-have cB := chol_ok (spd_AAt_noise j_gt0); case: (cB) => lB _ _.
-by rewrite !uppart_tr !lowpart_id // -/r /dtc_w; congr (_ *m _); rewrite mulmxA (chol_inv cB).
+move=> Lp; rewrite /standard_low_rank_PN -/Lp.
+case: (full_rank_chol s symK psdK j_gt0) => lL _ _.
+by rewrite /= lowpart_id // trmx_mul trmxK trmx_inv.
 Qed.
 
-Lemma dtc_weights_scalar sigma :
-  LandmarksCond_init_sS_cN_yF_uF_weights Kuf Kuu y mu sigma j = dtc_w (Num.max (sigma ^+ 2) j).
+Lemma standard_LLt :
+  let L := standard_low_rank_PN Kxu Kuu s j in
+  L *m L^T = Kxu *m invmx (Kuu + (Num.max (s ^+ 2) j)%:M) *m Kxu^T.
 Proof.
-rewrite /LandmarksCond_init_sS_cN_yF_uF_weights /get_L_cN add_variance_none add_variance_factor.
-rewrite /sigma_to_y_cov_factor_sS_cN [mscale _ _]/= noise_of_scalar.
-case: (Lu_chol) => lL _ _; rewrite /= -/Lu lowpart_id // -/A.
-have cB := chol_ok (spd_AAt_noise (max_jitter_gt0 (sigma ^+ 2) j_gt0)); case: (cB) => lB _ _.
-by rewrite !uppart_tr !lowpart_id // -/r /dtc_w; congr (_ *m _); rewrite mulmxA (chol_inv cB).
+move=> L; rewrite /L standard_recomputed trmx_mul trmx_inv trmxK.
+have cL := full_rank_chol s symK psdK j_gt0.
+by rewrite mulmxA -(mulmxA Kxu) (chol_inv cL).
 Qed.
 
-(* (K_uf K_fu + a (K_uu + j I)) w = K_uf (y - mu) *)
-Lemma dtc_normal_eq_closed a : 0 < a ->
-  (Kuf *m Kuf^T + a *: (Kuu + j%:M)) *m dtc_w a = Kuf *m r.
+(* C02: the Cholesky-latent predictor built with the same Lp reproduces L z at the cells *)
+Lemma chol_insample c (Lp : 'M[F]_m) (z : 'M[F]_(m, c)) mu n_obs s1 j1 s2 j2 :
+  is_lower Lp ->
+  Kxu *m LandmarksCholCond_init_LM_sS_yT_uF_weights z mu n_obs Lp s1 j1
+  = standard_low_rank_PM Kxu Lp s2 j2 *m z.
 Proof.
-move=> a0; have uL := chol_of_unit Lu_chol; case: (Lu_chol) => _ _ LLt.
-have uB := spd_unit (spd_AAt_noise a0).
-have -> : Kuf *m Kuf^T + a *: (Kuu + j%:M) = Lu *m (A *m A^T + a%:M) *m Lu^T.
-  rewrite mulmxDr mulmxDl -LLt mul_mx_scalar -scalemxAl; congr (_ + _).
-  by rewrite -{1 2}Lu_A trmx_mul !mulmxA.
-rewrite /dtc_w mulmxA.
+move=> lL; rewrite standard_given // /LandmarksCholCond_init_LM_sS_yT_uF_weights.
+by rewrite (solve_upper_tr _ _ _ _ _ _ lL) mulmxA.
+Qed.
+
+End Standard.
+
+(* ---- Loewner bound for the Nystroem projection (Schur complement) ---- *)
+Lemma psd_block_shift n m (A : 'M[F]_n) (B : 'M[F]_(n, m)) (C : 'M[F]_m) a :
+  0 <= a -> psd (block_mx A B B^T C) -> psd (block_mx (A + a%:M) B B^T C).
+Proof.
+move=> a0 pJ.
+have -> : block_mx (A + a%:M) B B^T C = block_mx A B B^T C + block_mx a%:M 0 0 0.
+  by rewrite add_block_mx !addr0.
+apply: psdD => // v; rewrite -[v]vsubmxK tr_col_mx mul_row_block mul_row_col !mulmx0.
 Show. Abort. 
